@@ -4,8 +4,8 @@ import DadiVerif.Lemmas.Godambe
 
 Property theorems only (helper lemmas: `Lemmas/Godambe.lean`).  `hessDiagC, hessDiag1, hessOffC, hessOff1, gradC, grad1`, the branch
 conditions, `hessStep/hessOneSided/gradStep/gradOneSided`, `godambe, lrtAdjust, waldAdj, waldOrg, scoreOrg, scoreAdj`,
-`augParams/augModel`, `cacheKeyHoldsRef`, `chi2FlagWhenScalar/chi2FlagWhenArray`, `chi2WeightsBad` and all `…ShapeOk` tables are
-*generated from the current `dadi/Godambe.py`* by tools/gen_Godambe.py on every run; `hessElem, getHessEntry, getGradEntry, jEntry,
+`augParams/augModel`, `cacheKeyHoldsRef`, `chi2FlagWhenScalar/chi2FlagWhenArray`, `chi2WeightsBad`, `llBin`, `llMaskModel/llMaskModelLogDomain/llMaskData` (from
+`dadi/Inference.py`) and all `…ShapeOk` tables are *generated from the current `dadi/Godambe.py`* by tools/gen_Godambe.py on every run; `hessElem, getHessEntry, getGradEntry, jEntry,
 cuEntry, statsOf, runCache, implKey, chi2Mix` are the hand-written rest of the executable model (Model/Godambe.lean) that the driver
 runs.  The stencils are polymorphic: statements are over an arbitrary field `K` (ℚ for the driver), all points, all step sizes ≠ 0.
 `quadForm` (Lemmas/Godambe.lean) is the class of test functions "every quadratic in n parameters", not code.  §3b instantiates the
@@ -329,6 +329,25 @@ theorem C19_info_equality (H : Matrix (Fin m) (Fin m) ℚ) (hH : IsUnit H.det) (
 example : godambe (matOps 2) !![2, 1; 1, 3] !![2, 1; 1, 3] = !![2, 1; 1, 3] :=
   (C19_info_equality _ (by simp [Matrix.det_fin_two]; norm_num) (by norm_num)).1
 
+/-- the same operations on (m+1)×(m+1) matrices with `[0,0]` read off (a column vector = a matrix whose other columns are 0) -/
+noncomputable def matOps1 (m : ℕ) : MatOps (Matrix (Fin (m + 1)) (Fin (m + 1)) ℚ) ℚ where
+  dot := fun a b => a * b
+  inv := fun a => a⁻¹
+  transpose := Matrix.transpose
+  trace := Matrix.trace
+  entry00 := fun a => a 0 0
+
+/-- the statistics *as written in the current source* are the closed forms of the property, with all cross terms: the Godambe matrix is
+    H·J⁻¹·H; the LRT adjustment is k / trace(J·H⁻¹) = k / Σᵢ Σⱼ Jᵢⱼ·(H⁻¹)ⱼᵢ (off-diagonal products included, J first); the Wald
+    statistics are dᵀ·G·d and dᵀ·H·d; the score statistics are cUᵀ·H⁻¹·cU (unadjusted) and cUᵀ·J⁻¹·cU (adjusted) -/
+theorem C19_stat_closed_forms (k : ℚ) (J H G d cU : Matrix (Fin (m + 1)) (Fin (m + 1)) ℚ) :
+    godambe (matOps1 m) H J = H * J⁻¹ * H
+    ∧ lrtAdjust (matOps1 m) k J H = k / ∑ i, ∑ j, J i j * H⁻¹ j i
+    ∧ waldAdj (matOps1 m) d G H = dᵀ * G * d ∧ waldOrg (matOps1 m) d G H = dᵀ * H * d
+    ∧ scoreOrg (matOps1 m) cU H J = (cUᵀ * H⁻¹ * cU) 0 0 ∧ scoreAdj (matOps1 m) cU H J = (cUᵀ * J⁻¹ * cU) 0 0 := by
+  refine ⟨rfl, ?_, rfl, rfl, rfl, rfl⟩
+  simp only [lrtAdjust, matOps1, Matrix.trace, Matrix.diag, Matrix.mul_apply]
+
 end InfoEq
 
 /-! ## 3c. the closed forms the finite differences are compared with (linear Poisson models) -/
@@ -348,6 +367,56 @@ theorem C19_linear_poisson_exact_parts {ι : Type} (cells : Finset ι) (M Bk Bl 
 example : HasDerivAt (fun t : ℝ => ∑ i ∈ Finset.range 2, (-((2 : ℝ) + t * 3) + 5 * Real.log (2 + t * 3)))
     (∑ i ∈ Finset.range 2, (-(3 : ℝ) + 5 * 3 / 2)) 0 :=
   (C19_linear_poisson_exact_parts (Finset.range 2) (fun _ => 2) (fun _ => 3) (fun _ => 3) (fun _ => 5) (by intro i _; norm_num)).1
+
+/-! ## 3d. which entries enter the likelihood that `get_godambe` differentiates (`Inference.ll`) -/
+
+/-- an entry is left out of `ll(model, data)` exactly when it is masked in the model **or** in the data (or the model is not
+    positive there: masked logarithm) — `Inference.ll`'s documented rule.  About the generated mask analysis of the expression
+    `ll_per_bin` evaluates: if some operand that carried the data's (or the model's) mask is replaced by its raw `.data`, the
+    corresponding generated flag is `false` and this does not check. -/
+theorem C19_ll_joint_mask (c : LLCell) : llCellMasked c = (c.mm || c.dm || decide (c.m ≤ 0)) := by
+  have h1 : llMaskModel = true := by decide
+  have h2 : llMaskModelLogDomain = true := by decide
+  have h3 : llMaskData = true := by decide
+  unfold llCellMasked
+  rw [h1, h2, h3]
+  cases c.mm <;> cases c.dm <;> simp
+
+/-- `ll` is the sum of `−M + d·log M − log d!` over the entries that are masked in **neither** the model **nor** the data (and where
+    the model is positive): the index set `cells` of the closed forms of §3c (`C19_linear_poisson_exact_parts`) is the set of jointly
+    unmasked entries, for the data (observed information H) and for every bootstrap separately (its score) -/
+theorem C19_ll_sum_joint (cells : List LLCell) :
+    llSum cells = ((cells.filter fun c => !c.mm && !c.dm && decide (0 < c.m)).map fun c => -c.m + c.d * c.logm - c.lgam).sum
+    ∧ llCount cells = (cells.filter fun c => !c.mm && !c.dm && decide (0 < c.m)).length
+    ∧ llShapeOk = true := by
+  have hf : (fun c : LLCell => !llCellMasked c) = (fun c => !c.mm && !c.dm && decide (0 < c.m)) := by
+    funext c
+    rw [C19_ll_joint_mask]
+    by_cases hpos : 0 < c.m
+    · have hle : ¬ c.m ≤ 0 := not_le.mpr hpos
+      cases c.mm <;> cases c.dm <;> simp [hpos, hle]
+    · have hle : c.m ≤ 0 := not_lt.mp hpos
+      cases c.mm <;> cases c.dm <;> simp [hpos, hle]
+  refine ⟨?_, ?_, by decide⟩
+  · unfold llSum
+    rw [hf]
+    simp only [llBin]
+  · unfold llCount
+    rw [hf]
+
+/-- hence whatever stands in an entry that the data (or a bootstrap) masks — and whatever the model predicts there — has no influence
+    on the likelihood, for every parameter value: not on its Hessian, not on the bootstrap scores, not on anything derived from them -/
+theorem C19_ll_ignores_masked (pre post : List LLCell) (c : LLCell) (h : c.mm = true ∨ c.dm = true) :
+    llSum (pre ++ c :: post) = llSum (pre ++ post) := by
+  have hm : llCellMasked c = true := by
+    rw [C19_ll_joint_mask]
+    rcases h with h | h <;> simp [h]
+  unfold llSum
+  simp [List.filter_append, hm]
+
+example : llSum [⟨true, false, 0, 0, 0, 0⟩, ⟨false, true, 4, 7, 3 / 2, 9⟩, ⟨false, false, 2, 3, 1 / 2, 2⟩, ⟨true, true, 0, 0, 0, 0⟩]
+    = -2 + 3 * (1 / 2) - 2 := by
+  rw [(C19_ll_sum_joint _).1]; decide +kernel
 
 /-! ## 4. multinomial fits: θ is appended as the last parameter -/
 
